@@ -27,23 +27,28 @@ fn fail(v: &mut Vec<Value>, x: Value) {
     }
 }
 
-fn candidates() -> Vec<String> {
-    let hosts = ["", "a", "a.b", "A-1.x", "1.2.3.4", "[::1]", "[1:2::3]", "[", "[::1", "a]", "é", "a b", "[::1]é"];
-    let ports = ["", ":", ":0", ":80", ":65535", ":65536", ":99999", ":123456", ":8a", ":+80"];
-    let locals = ["", "a", "A", "a.b=_-/+", "a b", "a\0b", "é", "a:b", "💥"];
+fn candidates(thorough: bool) -> Vec<String> {
+    let mut hosts = vec!["", "a", "a.b", "A-1.x", "1.2.3.4", "[::1]", "[1:2::3]", "[", "[::1", "a]", "é", "a b", "[::1]é"];
+    let mut ports = vec!["", ":", ":0", ":80", ":65535", ":65536", ":99999", ":123456", ":8a", ":+80"];
+    let mut locals = vec!["", "a", "A", "a.b=_-/+", "a b", "a\0b", "é", "a:b", "💥"];
+    if thorough {
+        hosts.extend(["-", ".", "a..b", "1.2.3", "999.1.1.1", "[::]", "[::ffff:1.2.3.4]", "[1::2::3]", "[g::1]", "[]", "]", "[[::1]]", "a_b", "xn--e1afmkfd.xn--p1ai", "A", "\u{0}", "a:b"]);
+        ports.extend([":00000", ":000000", ":65535x", ":-1", ": 80", ":80 ", ":0x50", ":٣", ":8:0", "::"]);
+        locals.extend(["@", "!", "#", "$", "%41", "a/b", "_", "~", "\u{7f}", "a\nb", "\u{80}", "Ǆ"]);
+    }
     let mut out = vec![];
     for sigil in ["@", "!", "#", "$", ""] {
-        for l in locals {
-            for h in hosts {
-                for p in ports {
+        for l in &locals {
+            for h in &hosts {
+                for p in &ports {
                     out.push(format!("{sigil}{l}:{h}{p}"));
                 }
             }
             out.push(format!("{sigil}{l}"));
         }
     }
-    for h in hosts {
-        for p in ports {
+    for h in &hosts {
+        for p in &ports {
             out.push(format!("{h}{p}"));
             for m in ["", "/", "/a", "/aZ09-_", "/a/b", "/é"] {
                 out.push(format!("mxc://{h}{p}{m}"));
@@ -96,7 +101,7 @@ macro_rules! forms {
 }
 
 pub fn run(_tier: &str) -> Report {
-    let cands = candidates();
+    let cands = candidates(_tier == "thorough");
     let (mut n, mut f_forms, mut f_parts, mut f_ctor, mut f_panic) = (0u64, vec![], vec![], vec![], vec![]);
     for s in &cands {
         n += 1;
@@ -108,8 +113,12 @@ pub fn run(_tier: &str) -> Report {
                     fail(&mut f_parts, json!({"type": "UserId", "input": s, "recomposed": re}));
                 }
                 let _ = (u.validate_strict().is_ok(), u.validate_historical().is_ok(), u.is_historical());
+                // a localpart that itself begins with '@' is documented as unsupported by this constructor (it is read as a
+                // full user ID): then only "whatever it builds is accepted by the parser" is required
                 match UserId::parse_with_server_name(u.localpart(), u.server_name()) {
                     Ok(c) if c.as_str() == s => {}
+                    Ok(c) if u.localpart().starts_with('@') && <&UserId>::try_from(c.as_str()).is_ok() => {}
+                    Err(_) if u.localpart().starts_with('@') => {}
                     other => fail(&mut f_ctor, json!({"ctor": "UserId::parse_with_server_name(localpart, server)", "input": s, "observed": format!("{other:?}")})),
                 }
                 match UserId::parse_with_server_name(s.as_str(), u.server_name()) {
@@ -237,7 +246,7 @@ pub fn run(_tier: &str) -> Report {
         }
     }
     Report {
-        bound: format!("{} candidate strings (5 sigils x 9 localparts x 13 hosts x 10 ports, mxc and key id shapes, 253..256-byte boundaries) x 12 identifier types (incl. 5 key identifier types)", cands.len()),
+        bound: format!("{} candidate strings (5 sigils x 9 localparts x 13 hosts x 10 ports - thorough tier: 21 x 30 x 20 -, mxc and key id shapes, 253..256-byte boundaries) x 12 identifier types (incl. 5 key identifier types)", cands.len()),
         cases: n,
         obligations: vec![
             ("borrowed_owned_shared_and_serde_forms_agree_and_store_the_input", n, f_forms),
